@@ -46,6 +46,7 @@ def run(chk: Check):
     traces += [I.symbolic_trace(rng, ncalls=rng.randint(4, 10), via="goosemodel") for _ in range(60 if chk.quick else 600)]
     traces += [I.numeric_trace(rng, "transformed", via="goosemodel"), I.failed_construction_trace()]
     traces += [I.plain_trace(rng) for _ in range(2 if chk.quick else 20)]
+    traces += [I.dataclass_jit_trace(rng) for _ in range(1 if chk.quick else 10)]
     fams = (["linreg_flag", "transformed", "legacy_pit"] if chk.quick else FAMILY) + ["name_collision", "uniform_default", "int_init"]
     for f in fams:
         traces.append(I.numeric_trace(rng, f))
